@@ -379,6 +379,78 @@ def run(ctx) -> None:
     ctx.check("R5", pd is not None and unparse(pd) == "version.to_pep440(current_version)", "_parse_config: pep440_version = to_pep440(current_version)",
               "config._parse_config: pep440_version is not the PEP440 form of current_version", unparse(pd) if pd is not None else "", loc=pcf.loc())
     to_pep440_rule(ctx, "R5")
+    printed_pep440_rule(ctx, "R5")
+
+
+def printed_pep440_rule(ctx, rule: str) -> None:
+    """What `test` and `show` print as PEP440: `test` prints to_pep440 of the version it announces, `show` prints the
+    configuration's pep440_version next to its current_version (and the parts it lists are parsed from that current_version)."""
+    prog = ctx.prog
+
+    def labelled(fn, label: str) -> T.List[T.Tuple[ast.Call, T.List[ast.AST]]]:
+        out = []
+
+        def pieces(e: ast.AST, text: T.List[str], vals: T.List[ast.AST]) -> None:
+            # f-string, `+` concatenation, "...".format(...) and "..." % (...): constant text and the values printed between it
+            if isinstance(e, ast.Constant) and isinstance(e.value, str):
+                text.append(e.value)
+            elif isinstance(e, ast.JoinedStr):
+                for v in e.values:
+                    pieces(v.value if isinstance(v, ast.FormattedValue) else v, text, vals)
+            elif isinstance(e, ast.BinOp) and isinstance(e.op, ast.Add):
+                pieces(e.left, text, vals)
+                pieces(e.right, text, vals)
+            elif isinstance(e, ast.BinOp) and isinstance(e.op, ast.Mod) and const_str(e.left) is not None:
+                text.append(const_str(e.left))
+                for a in (e.right.elts if isinstance(e.right, ast.Tuple) else [e.right]):
+                    pieces(a, text, vals)
+            elif isinstance(e, ast.Call) and isinstance(e.func, ast.Attribute) and e.func.attr == "format" and const_str(e.func.value) is not None:
+                text.append(const_str(e.func.value))
+                for a in list(e.args) + [k.value for k in e.keywords]:
+                    pieces(a, text, vals)
+            elif isinstance(e, ast.Call) and unparse(e.func) == "str" and len(e.args) == 1:
+                pieces(e.args[0], text, vals)
+            else:
+                vals.append(e)
+        for c in walk_no_nested(fn.node):
+            if isinstance(c, ast.Call) and unparse(c.func) in ("click.echo", "print") and c.args:
+                text: T.List[str] = []
+                vals: T.List[ast.AST] = []
+                pieces(shapes.resolve_alias(fn, c.args[0]), text, vals)
+                if "".join(text).strip().upper().startswith(label):
+                    out.append((c, vals))
+        return out
+    tf = prog.function("cli.test")
+    ctx.visit(tf.fq)
+    announced = labelled(tf, "NEW VERSION")
+    pep = labelled(tf, "PEP440")
+    ctx.floor(rule, "PEP440 lines printed by cli.test", len(pep), 1)
+    names = {unparse(v) for _c, vs in announced for v in vs}
+    for c, vs in pep:
+        srcs = [shapes.resolve_alias(tf, v) for v in vs]
+        ok = len(names) == 1 and len(srcs) == 1 and isinstance(srcs[0], ast.Call) and unparse(srcs[0].func).endswith("to_pep440") \
+            and [unparse(a) for a in srcs[0].args] == sorted(names) and not srcs[0].keywords
+        ctx.check(rule, ok, "cli.test: the PEP440 line prints to_pep440(<the announced version>)", "cli.test: the printed PEP440 value is not the PEP 440 form of the announced version",
+                  f"`{unparse(c)[:80]}` prints {[unparse(s_)[:60] for s_ in srcs]}; announced: {sorted(names)}", loc=tf.loc(c), witness={"command": "bumpver test 1.2.3-rc1 'MAJOR.MINOR.PATCH[-TAGNUM]' --tag final"})
+    sf = prog.function("cli.show")
+    ctx.visit(sf.fq)
+    cur = labelled(sf, "CURRENT")
+    pep_s = labelled(sf, "PEP440")
+    ctx.floor(rule, "PEP440 lines printed by cli.show", len(pep_s), 3)
+    objs = {unparse(v.value) for _c, vs in cur for v in vs if isinstance(v, ast.Attribute) and v.attr == "current_version"}
+    for c, vs in pep_s:
+        ok = len(objs) == 1 and len(vs) == 1 and isinstance(vs[0], ast.Attribute) and vs[0].attr == "pep440_version" and unparse(vs[0].value) in objs
+        ctx.check(rule, ok, "cli.show: the PEP440 line prints <cfg>.pep440_version of the configuration whose current_version it prints",
+                  "cli.show: the printed PEP440 value is not the configuration's pep440_version", f"`{unparse(c)[:80]}`; current version printed from {sorted(objs)}", loc=sf.loc(c))
+    for c, vs in cur:
+        ok = len(vs) == 1 and isinstance(vs[0], ast.Attribute) and vs[0].attr == "current_version"
+        ctx.check(rule, ok, "cli.show: the current version line prints <cfg>.current_version", "cli.show: the printed current version is not the configuration's current_version", unparse(c)[:80], loc=sf.loc(c))
+    for c in walk_no_nested(sf.node):
+        if isinstance(c, ast.Call) and unparse(c.func).endswith("parse_version_info"):
+            args = [unparse(a) for a in c.args] + [unparse(k.value) for k in c.keywords]
+            ok = len(objs) == 1 and args == [f"{o_}.{a_}" for o_ in objs for a_ in ("current_version", "version_pattern")]
+            ctx.check(rule, ok, "cli.show: the parts it lists are parsed from (current_version, version_pattern) of the same configuration",
+                      "cli.show: the listed parts are not parsed from the configuration's current_version", unparse(c)[:80], loc=sf.loc(c))
 
 
 def _intersects(r: rl.R, d2: rl.DFA) -> T.Optional[str]:
